@@ -638,7 +638,7 @@ int main(int argc, char **argv)
 	if (!strcmp(mode, "isr")) {
 		isr_sweeps();
 	} else {
-		long long n = vh_opt.cases ? vh_opt.cases : (vh_opt.thorough ? 2000000 : 100000);
+		long long n = vh_opt.cases ? vh_opt.cases : (vh_opt.thorough ? 8000000 : 100000);
 		for (long long c = vh_opt.proc; c < n; c += vh_opt.nproc) {
 			if (vh_opt.only_case >= 0 && c != vh_opt.only_case)
 				continue;
